@@ -16,6 +16,7 @@ class ProgGen:
        'while-else', 'for-else'
        'dead-after-jump'  statements after break/continue/return in the same suite
        'aug'         augmented assignment
+       'boolop-in-expr'  an and/or as the right operand of + or < whose left operand calls the oracle
     """
 
     def __init__(self, rng, features):
@@ -37,6 +38,9 @@ class ProgGen:
             return self.rng.choice(self.vars)
         if r < 0.85:
             return "%s + %s" % (self.rng.choice(self.vars), self.ext())
+        if "boolop-in-expr" in self.f and r < 0.93:
+            return "%s %s (%s %s %s)" % (self.ext(), self.rng.choice(["+", "<"]), self.ext(),
+                                         self.rng.choice(["and", "or"]), self.ext())
         if "boolop" in self.f and r < 0.95:
             return "%s %s %s" % (self.ext(), self.rng.choice(["and", "or"]), self.ext())
         return "%s < %s" % (self.ext(), self.rng.choice(self.vars))
@@ -134,7 +138,7 @@ class ProgGen:
 
 
 CLEAN = {"boolop", "not", "attr", "for", "while-else", "for-else", "aug"}
-ALL = CLEAN | {"nested-boolop", "for-live", "dead-after-jump"}
+ALL = CLEAN | {"nested-boolop", "for-live", "dead-after-jump", "boolop-in-expr"}
 
 
 # ---------------------------------------------------------------------------
